@@ -248,6 +248,27 @@ class Effects:
     def _match(self, pats, text) -> bool:
         return any(re.search(p, text) for p in pats)
 
+    def _subscriber_calls(self, module: Module) -> set:
+        """ids of calls `v(...)` where v iterates over a subscriber container (`for v in <...subscribers...>` in a loop or a
+        comprehension): the subscribers are declared as callables returning an Awaitable, so the call only builds a coroutine."""
+        cache = self.__dict__.setdefault("_subcalls", {})
+        if module.name not in cache:
+            ids = set()
+            for n in ast.walk(module.tree):
+                gens = []
+                if isinstance(n, (ast.ListComp, ast.SetComp, ast.GeneratorExp)):
+                    gens = [(g.target, g.iter, [n.elt]) for g in n.generators]
+                elif isinstance(n, (ast.For, ast.AsyncFor)):
+                    gens = [(n.target, n.iter, n.body)]
+                for tgt, it, scope in gens:
+                    if isinstance(tgt, ast.Name) and "subscribers" in unparse(it):
+                        for s_ in scope:
+                            for c in ast.walk(s_):
+                                if isinstance(c, ast.Call) and isinstance(c.func, ast.Name) and c.func.id == tgt.id:
+                                    ids.add(id(c))
+            cache[module.name] = ids
+        return cache[module.name]
+
     def _call(self, call: ast.Call, awaited: bool, module: Module, cls: Optional[ClassInfo], ctx: str):
         d = dotted(call.func)
         if d is None:
@@ -260,7 +281,7 @@ class Effects:
         if self._match(self.READ, d):
             return frozenset({"OSError", "asyncio.IncompleteReadError"})
         # subscriber invocation that only builds a coroutine: 's(...)' in a comprehension over a subscriber set
-        if d == "s" and not awaited:
+        if not awaited and "." not in d and id(call) in self._subscriber_calls(module):
             return EMPTY
         target = None
         tcls = cls
